@@ -13,6 +13,9 @@ Definition cerr_eqb (a b : cerr) : bool :=
 Definition chk_resolve (c : mlayout * Z * list (list Z) * list Z * nat * list Z) : bool :=
   match c with (l, e, A, b, n, want) => zl_eqb (resolve (access_mem l e A b) n) want end.
 
+Definition chk_resolve_base (c : mlayout * Z * list (list Z) * list Z * nat * Z) : bool :=
+  match c with (l, e, A, b, n, want) => resolve_base (access_mem l e A b) n =? want end.
+
 (* one operand of a conversion: (has_broadcast, spatial dims, strides, bounds, relevance mask) *)
 Definition operand := (bool * list Z * list Z * list Z * list bool)%type.
 Definition conv_operand (o : operand) : res spattern :=
